@@ -1,3 +1,242 @@
-import TenpyModel.C02.Struct
+import TenpyModel.C02.PropsCtor
+/-!
+# C02 part 5 — histories: `WF` is an invariant of every finite history of the modelled operations,
+at every intermediate step. A call that raises leaves the environment unchanged.
+-/
 open TenpyModel.Core TenpyModel.C02
-theorem C02_placeholder_PropsHistory : True := trivial
+
+namespace TenpyModel.C02
+
+/-- one public call; tensors are addressed by their position in the environment -/
+inductive Op where
+  | copy (i : Nat)
+  | zerosLike (i : Nat)
+  | mkLike (i : Nat) (q : Charge)                      -- `from_func` / `from_ndarray` on the legs of tensor `i`
+  | itranspose (i : Nat) (axes : Option (List Int))     -- in place
+  | transpose (i : Nat) (axes : Option (List Int))      -- on a copy
+  | iswapaxes (i : Nat) (x y : Int)
+  | conj (i : Nat)
+  | iconj (i : Nat)
+  | takeSlice (i : Nat) (indices axes : List Int)
+  | addTrivialLeg (i : Nat) (axis qconj : Int)
+  | isortQdata (i : Nat)
+  | ipurgeZeros (i : Nat) (keep : List Bool)
+  | iscalePrefactor (i : Nat) (isZero : Bool)
+  | setItem (i : Nat) (idx : List Int)
+  | ibinary (i j : Nat) (perm : Option (List Nat))      -- `a.ibinary_blockwise(f, b)`: modifies a AND sorts b
+  | iadd (cy : Bool) (i j : Nat) (perm : Option (List Nat)) (isZero : Bool)
+  | outer (i j : Nat)
+
+abbrev Env := List ArrS
+
+def permOk (perm : Option (List Nat)) (rank : Nat) : Bool :=
+  match perm with
+  | none => true
+  | some ax => ax.length == rank && ax.Nodup && ax.all (· < rank)
+
+/-- `none` = the call raises (argument checks of the code or of the caller's contract fail) -/
+def step (op : Op) (env : Env) : Option Env :=
+  match op with
+  | .copy i => (env[i]?).map (fun a => env ++ [a.copy])
+  | .zerosLike i => (env[i]?).map (fun a => env ++ [a.zerosLike])
+  | .mkLike i q => (env[i]?).bind (fun a =>
+      if q.length ≠ a.mods.length then none else (fromFunc a.legs (some q)).map (fun z => env ++ [z]))
+  | .itranspose i axes => (env[i]?).bind (fun a => (a.itranspose axes).map (fun b => env.set i b))
+  | .transpose i axes => (env[i]?).bind (fun a => (a.itranspose axes).map (fun b => env ++ [b]))
+  | .iswapaxes i x y => (env[i]?).bind (fun a => (a.iswapaxes x y).map (fun b => env.set i b))
+  | .conj i => (env[i]?).map (fun a => env ++ [a.conj])
+  | .iconj i => (env[i]?).map (fun a => env.set i a.conj)
+  | .takeSlice i indices axes => (env[i]?).bind (fun a =>
+      match axes.mapM a.legIndex with
+      | some axn => if axn.Nodup then (a.takeSlice indices axes).map (fun b => env ++ [b]) else none
+      | none => none)
+  | .addTrivialLeg i axis qconj => (env[i]?).bind (fun a =>
+      if qconj = 1 ∨ qconj = -1 then some (env ++ [a.addTrivialLeg axis qconj]) else none)
+  | .isortQdata i => (env[i]?).map (fun a => env.set i a.isortQdata)
+  | .ipurgeZeros i keep => (env[i]?).map (fun a => env.set i (a.ipurgeZeros keep))
+  | .iscalePrefactor i z => (env[i]?).map (fun a => env.set i (a.iscalePrefactor z))
+  | .setItem i idx => (env[i]?).bind (fun a => (a.setItem idx).map (fun b => env.set i b))
+  | .ibinary i j perm =>
+      match env[i]?, env[j]? with
+      | some a, some b =>
+        if i = j || !permOk perm b.rank then none
+        else (a.ibinary b perm).map (fun p => (env.set i p.1).set j p.2)
+      | _, _ => none
+  | .iadd cy i j perm isZero =>
+      match env[i]?, env[j]? with
+      | some a, some b =>
+        if i = j || !permOk perm b.rank then none
+        else (ArrS.iaddPrefactorOther cy a b perm isZero).map (fun p => (env.set i p.1).set j p.2)
+      | _, _ => none
+  | .outer i j =>
+      match env[i]?, env[j]? with
+      | some a, some b => (outer a b).map (fun c => env ++ [c])
+      | _, _ => none
+
+/-- a history; a raising call changes nothing -/
+def run (h : List Op) (env : Env) : Env := h.foldl (fun e op => (step op e).getD e) env
+
+def EnvWF (env : Env) : Prop := ∀ a ∈ env, a.WF
+
+theorem EnvWF_append {env : Env} {a : ArrS} (h : EnvWF env) (ha : a.WF) : EnvWF (env ++ [a]) := by
+  intro x hx
+  rcases List.mem_append.mp hx with h' | h'
+  · exact h x h'
+  · simp only [List.mem_singleton] at h'; subst h'; exact ha
+
+theorem EnvWF_set {env : Env} {a : ArrS} (i : Nat) (h : EnvWF env) (ha : a.WF) : EnvWF (env.set i a) := by
+  intro x hx
+  rcases List.mem_or_eq_of_mem_set hx with h' | h'
+  · exact h x h'
+  · subst h'; exact ha
+
+theorem permOk_perm {perm : Option (List Nat)} {rank : Nat} (h : permOk perm rank = true) :
+    ∀ ax, perm = some ax → ax.Perm (List.range rank) := by
+  intro ax hax
+  subst hax
+  simp only [permOk, Bool.and_eq_true, beq_iff_eq, decide_eq_true_eq, List.all_eq_true] at h
+  exact perm_range_of_nodup ax rank h.1.2 h.1.1 h.2
+
+theorem step_WF (op : Op) (env env' : Env) (h : EnvWF env) (hs : step op env = some env') : EnvWF env' := by
+  have get : ∀ {i : Nat} {a : ArrS}, env[i]? = some a → a.WF := fun hi => h _ (List.mem_of_getElem? hi)
+  cases op with
+  | copy i =>
+    simp only [step, Option.map_eq_some_iff] at hs
+    obtain ⟨a, hi, rfl⟩ := hs
+    exact EnvWF_append h (C02_WF_copy a (get hi))
+  | zerosLike i =>
+    simp only [step, Option.map_eq_some_iff] at hs
+    obtain ⟨a, hi, rfl⟩ := hs
+    exact EnvWF_append h (C02_WF_zerosLike a (get hi))
+  | mkLike i q =>
+    simp only [step, Option.bind_eq_some_iff] at hs
+    obtain ⟨a, hi, hs⟩ := hs
+    split at hs
+    · cases hs
+    · rename_i hq
+      simp only [Option.map_eq_some_iff] at hs
+      obtain ⟨z, hz, rfl⟩ := hs
+      have hW := (WF_iff a).mp (get hi)
+      have hql : ∀ q', some q = some q' → q'.length = (ArrS.modsOf a.legs).length := by
+        intro q' hq'
+        cases hq'
+        have : q.length = a.mods.length := by simpa using hq
+        exact this
+      exact EnvWF_append h (C02_WF_fromFunc a.legs (some q) z hW.legs_ok hW.mods_pos hql hz)
+  | itranspose i axes =>
+    simp only [step, Option.bind_eq_some_iff, Option.map_eq_some_iff] at hs
+    obtain ⟨a, hi, b, hb, rfl⟩ := hs
+    exact EnvWF_set i h (C02_WF_itranspose a axes b (get hi) hb)
+  | transpose i axes =>
+    simp only [step, Option.bind_eq_some_iff, Option.map_eq_some_iff] at hs
+    obtain ⟨a, hi, b, hb, rfl⟩ := hs
+    exact EnvWF_append h (C02_WF_itranspose a axes b (get hi) hb)
+  | iswapaxes i x y =>
+    simp only [step, Option.bind_eq_some_iff, Option.map_eq_some_iff] at hs
+    obtain ⟨a, hi, b, hb, rfl⟩ := hs
+    exact EnvWF_set i h (C02_WF_iswapaxes a x y b (get hi) hb)
+  | conj i =>
+    simp only [step, Option.map_eq_some_iff] at hs
+    obtain ⟨a, hi, rfl⟩ := hs
+    exact EnvWF_append h (C02_WF_conj a (get hi))
+  | iconj i =>
+    simp only [step, Option.map_eq_some_iff] at hs
+    obtain ⟨a, hi, rfl⟩ := hs
+    exact EnvWF_set i h (C02_WF_conj a (get hi))
+  | takeSlice i indices axes =>
+    simp only [step, Option.bind_eq_some_iff] at hs
+    obtain ⟨a, hi, hs⟩ := hs
+    split at hs
+    · rename_i axn hax
+      split at hs
+      · rename_i hnd
+        simp only [Option.map_eq_some_iff] at hs
+        obtain ⟨b, hb, rfl⟩ := hs
+        exact EnvWF_append h (C02_WF_takeSlice a indices axes b (get hi)
+          (by intro axn' h'; rw [hax] at h'; cases h'; exact hnd) hb)
+      · cases hs
+    · cases hs
+  | addTrivialLeg i axis qconj =>
+    simp only [step, Option.bind_eq_some_iff] at hs
+    obtain ⟨a, hi, hs⟩ := hs
+    split at hs
+    · rename_i hq
+      cases hs
+      exact EnvWF_append h (C02_WF_addTrivialLeg a axis qconj hq (get hi))
+    · cases hs
+  | isortQdata i =>
+    simp only [step, Option.map_eq_some_iff] at hs
+    obtain ⟨a, hi, rfl⟩ := hs
+    exact EnvWF_set i h (C02_WF_isortQdata a (get hi))
+  | ipurgeZeros i keep =>
+    simp only [step, Option.map_eq_some_iff] at hs
+    obtain ⟨a, hi, rfl⟩ := hs
+    exact EnvWF_set i h (C02_WF_ipurgeZeros a keep (get hi))
+  | iscalePrefactor i z =>
+    simp only [step, Option.map_eq_some_iff] at hs
+    obtain ⟨a, hi, rfl⟩ := hs
+    exact EnvWF_set i h (C02_WF_iscalePrefactor a z (get hi))
+  | setItem i idx =>
+    simp only [step, Option.bind_eq_some_iff, Option.map_eq_some_iff] at hs
+    obtain ⟨a, hi, b, hb, rfl⟩ := hs
+    exact EnvWF_set i h (C02_WF_setItem a idx b (get hi) hb)
+  | ibinary i j perm =>
+    simp only [step] at hs
+    split at hs
+    · rename_i a b hi hj
+      split at hs
+      · cases hs
+      · rename_i hc
+        simp only [Bool.or_eq_true, decide_eq_true_eq, Bool.not_eq_true', not_or, Bool.not_eq_false] at hc
+        simp only [Option.map_eq_some_iff] at hs
+        obtain ⟨p, hp, rfl⟩ := hs
+        have := C02_WF_ibinary a b perm p.1 p.2 (get hi) (get hj) (permOk_perm hc.2) hp
+        exact EnvWF_set j (EnvWF_set i h this.1) this.2
+    · cases hs
+  | iadd cy i j perm isZero =>
+    simp only [step] at hs
+    split at hs
+    · rename_i a b hi hj
+      split at hs
+      · cases hs
+      · rename_i hc
+        simp only [Bool.or_eq_true, decide_eq_true_eq, Bool.not_eq_true', not_or, Bool.not_eq_false] at hc
+        simp only [Option.map_eq_some_iff] at hs
+        obtain ⟨p, hp, rfl⟩ := hs
+        have := C02_WF_iaddPrefactorOther cy a b perm isZero p.1 p.2 (get hi) (get hj) (permOk_perm hc.2) hp
+        exact EnvWF_set j (EnvWF_set i h this.1) this.2
+    · cases hs
+  | outer i j =>
+    simp only [step] at hs
+    split at hs
+    · rename_i a b hi hj
+      simp only [Option.map_eq_some_iff] at hs
+      obtain ⟨c, hc, rfl⟩ := hs
+      exact EnvWF_append h (C02_WF_outer a b c (get hi) (get hj) hc)
+    · cases hs
+
+end TenpyModel.C02
+
+/-- every finite history of the modelled public operations keeps every live tensor well-formed -/
+theorem C02_history (h : List Op) (env : Env) (hw : EnvWF env) : EnvWF (run h env) := by
+  induction h generalizing env with
+  | nil => exact hw
+  | cons op ops ih =>
+    simp only [run, List.foldl_cons]
+    apply ih
+    cases hs : step op env with
+    | none => simpa using hw
+    | some env' => simpa using step_WF op env env' hw hs
+
+/-- … and at every intermediate step of the history -/
+theorem C02_history_every_step (h : List Op) (env : Env) (hw : EnvWF env) (k : Nat) : EnvWF (run (h.take k) env) :=
+  C02_history (h.take k) env hw
+
+/-- non-vacuity: a concrete 7-step history on the example tensor with in-place calls, a shallow-copy style
+duplicate, an element assignment, a merge with a transposed operand and an outer product -/
+example :
+    let h := [Op.copy 0, .itranspose 1 (some [1, 0]), .transpose 1 none, .iadd true 0 2 none false,
+              .setItem 0 [1, 1], .isortQdata 0, .outer 0 2, .takeSlice 3 [0, 1] [0, 3], .iswapaxes 4 0 1]
+    (run h [exA]).length = 5 ∧ (run h [exA]).all (fun a => decide a.WF) = true
+      ∧ (run h [exA]).map (·.sorted) = [true, false, true, true, false] := by
+  decide
